@@ -8,7 +8,7 @@ A judge only says "violated" when the replay demonstrates it; when it cannot tel
 `no-failing-input-found` form.
 """
 import re
-from . import run
+from . import run, oracle
 
 DOCUMENTED_PANICS = ("user", "single", "noteventset", "capacity", "invalidindex")
 
@@ -118,11 +118,154 @@ def direct(prop, ops):
             if snap:
                 for problem in snapshot_invariants(snap):
                     out.append(Finding(prop, i, sig(i, "snapshot:" + problem.split(":")[0]), problem))
+    if prop == "C05":
+        out += accept_oracle(prop, ops, sig)
+    if prop in ("C06", "C10"):
+        out += items_oracle(prop, ops, sig)
+    if prop == "C08":
+        out += delivery_oracle(prop, ops, sig)
     if prop == "C20":
         for i, (op, obs) in enumerate(ops):
             for l in obs:
                 if l.startswith("t  arena") and l.endswith("BAD"):
                     out.append(Finding(prop, i, sig(i, "arena-corrupt"), l))
+    return out
+
+
+def accept_oracle(prop, ops, sig):
+    """C05: the accept/reject verdict of every `addh` against the aliasing oracle over all archetypes"""
+    out = []
+    for i, (op, obs) in enumerate(ops):
+        if not op.startswith("addh ") or " tid=" in op:
+            continue
+        ret = [l for l in obs if l.startswith("ret ")]
+        if not ret:
+            continue
+        f = dict(t.split("=", 1) for t in op.split(" ")[1:] if "=" in t)
+        params = [p.split(":") for p in f.get("params", "").split(";") if p]
+        recvs = [p for p in params if p[0] == "R"]
+        codes = [p[3] for p in recvs if len(p) > 3] + [p[1] for p in params if p[0] in ("F", "S", "TS")]
+        # targeted receivers without an explicit query use `()`
+        try:
+            qs = [oracle.parse(c) for c in codes]
+        except Exception:
+            continue
+        if not recvs:
+            expected = "err:noevent"
+        elif len({p[1] for p in recvs}) > 1:
+            expected = "err:multievent"
+        elif len(recvs) > 1 and any(p[2] == "m" for p in recvs):
+            expected = "err:evaccess"
+        else:
+            ok, S = oracle.safe(qs)
+            expected = "ok" if ok else "err:conflict"
+        got = ret[0][4:]
+        if not got.startswith(expected):
+            what = f"`{op}` returned `{got}` but the parameters " + (
+                "can alias mutably" if expected == "err:conflict" else f"call for `{expected}`") + (
+                f" (e.g. on an entity with components {sorted(S)})" if expected == "err:conflict" and S is not None else "")
+            out.append(Finding(prop, i, sig(i, "accept-oracle"), what))
+    return out
+
+
+def _unchanged_store(ops, i):
+    if i == 0:
+        return None
+    a = lines_of(ops[i - 1][1], "st ")
+    b = lines_of(ops[i][1], "st ")
+    if a and b and a[0] == b[0] and "?" not in a[0]:
+        return oracle.parse_store(a[0])
+    return None
+
+
+def items_oracle(prop, ops, sig):
+    """C06/C10: what a fetcher iterates, against the documented meaning evaluated on the store (only for operations
+    during which the store did not change, so that the `st` line describes what every handler saw)"""
+    out = []
+    specs = oracle.handler_specs(ops)
+    for i, (op, obs) in enumerate(ops):
+        store = _unchanged_store(ops, i)
+        if store is None:
+            continue
+        cur = None
+        for l in obs:
+            m = re.match(r"t h (\S+) ", l)
+            if m:
+                cur = m.group(1)
+                continue
+            m = re.match(r"t  it(\d+) \[(.*)\] len=(\d+)", l)
+            if m and cur in specs:
+                p = int(m.group(1))
+                params = specs[cur]["params"]
+                if p >= len(params) or params[p][0] != "F":
+                    continue
+                if any("?" in x for x in m.group(2).split(";")) and "?#" not in m.group(2):
+                    pass
+                try:
+                    exp = oracle.expected_items(params[p][1], store)
+                except Exception:
+                    continue
+                got = sorted(x for x in m.group(2).split(";") if x)
+                if got != exp or int(m.group(3)) != len(exp):
+                    out.append(Finding(prop, i, sig(i, "items-oracle"),
+                                       f"handler {cur} fetcher {params[p][1]}: iterated {got[:6]} (len={m.group(3)}) but the store says {exp[:6]}"))
+    return out
+
+
+def delivery_oracle(prop, ops, sig):
+    """C08: which handlers a top-level targeted event reaches, against the receiver queries evaluated on the target's
+    components (histories without component/event removal; operations during which the store did not change)"""
+    out = []
+    if any(op.startswith(("rmc", "rmev")) for op, _ in ops):
+        return out
+    specs = oracle.handler_specs(ops)
+    removed = set()
+    order = {"h": 0, "m": 1, "l": 2}
+    for i, (op, obs) in enumerate(ops):
+        if op.startswith("rmh ") and any(l == "ret some" for l in obs):
+            removed.add(op.split(" ")[1])
+        m = re.match(r"sendto (T\d) (#\d+)$", op)
+        if not m:
+            continue
+        store = _unchanged_store(ops, i)
+        if store is None:
+            continue
+        ev, tgt = m.group(1), m.group(2)
+        first = [l for l in obs if l.startswith("t h ")]
+        serial = None
+        got = []
+        for l in first:
+            mm = re.match(r"t h (\S+) " + ev + r"\(s(\d+)\)@" + re.escape(tgt) + "$", l)
+            if mm:
+                if serial is None:
+                    serial = mm.group(2)
+                if mm.group(2) == serial:
+                    got.append(mm.group(1))
+        exp = []
+        if tgt in store:
+            S = set(store[tgt].keys())
+            cands = []
+            for name, sp in specs.items():
+                if name in removed or not sp["accepted"] or sp["index"] > i:
+                    continue
+                rs = [p for p in sp["params"] if p[0] == "R"]
+                if not rs or rs[0][1] != ev:
+                    continue
+                try:
+                    if all(oracle.sem(oracle.parse(p[3] if len(p) > 3 else "()"), S) for p in rs):
+                        cands.append((order[sp["prio"]], sp["index"], name, sp))
+                except Exception:
+                    cands = None
+                    break
+            if cands is None:
+                continue
+            for _, _, name, sp in sorted(cands):
+                exp.append(name)
+        # handlers after a taker do not run: the observed list must be a prefix ending in a taker, or the whole list
+        took = any(l == "t  took" for l in obs)
+        if got != exp and not (took and got == exp[:len(got)] and got):
+            out.append(Finding(prop, i, sig(i, "delivery-oracle"),
+                               f"`{op}`: handlers run {got}, receiver queries on the target's components select {exp}"))
     return out
 
 
